@@ -70,6 +70,7 @@ type Scenario struct {
 	ShutAfter  int    `json:"shut_after"`
 	CtxMs      int    `json:"ctx_ms,omitempty"`
 	Transient  []int  `json:"transient,omitempty"`  // these accept / datagram-read attempts fail with a temporary, non-timeout error
+	CloseErr   bool   `json:"close_err,omitempty"`  // tcp / tls: closing the listener reports an error (it is closed all the same)
 	Listen     bool   `json:"listen,omitempty"`     // the server is started with ListenAndServe (socket seam of the instrumented build) instead of ActivateAndServe
 	ReuseOpts  int    `json:"reuse_opts,omitempty"` // ListenAndServe: bit 0 ReusePort, bit 1 ReuseAddr
 	ShutB      bool   `json:"shutdown_b,omitempty"` // a second, concurrent Shutdown
@@ -139,6 +140,7 @@ func Gen(seed uint64, tier string) any {
 	if !sc.Start2 && !sc.Early && core.Chance(r, 12) {
 		sc.FailStart = core.Pick(r, "bogus", "tcp-tls", "sockopt", "noreader", "inuse")
 	}
+	sc.CloseErr = sc.Transport != "udp" && core.Chance(r, 12)
 	sc.Listen = core.Chance(r, 40)
 	if sc.Listen {
 		sc.ReuseOpts = r.IntN(4)
@@ -222,6 +224,7 @@ func Shrink(x any) []any {
 	flag(func(n *Scenario) *bool { return &n.Decorate })
 	flag(func(n *Scenario) *bool { return &n.Spare })
 	flag(func(n *Scenario) *bool { return &n.Listen })
+	flag(func(n *Scenario) *bool { return &n.CloseErr })
 	if sc.FailStart != "" {
 		n := cp()
 		n.FailStart = ""
@@ -414,6 +417,29 @@ func (x *run) ServeDNS(w dns.ResponseWriter, r *dns.Msg) {
 type streamOnlyReader struct{ dns.Reader }
 
 var errSockopt = errors.New("setsockopt: operation not permitted")
+var errClose = errors.New("close tcp 10.0.0.1:53: input/output error")
+
+// closeErrListener closes like the listener it wraps and then reports an error.
+type closeErrListener struct {
+	*simnet.Listener
+	x *run
+}
+
+//go:norace
+func (l closeErrListener) Close() error {
+	l.Listener.Close()
+	l.x.k.Bump("fault.listener_close_reports_error")
+	return errClose
+}
+
+//go:norace
+func (x *run) listener() net.Listener {
+	if x.sc.CloseErr {
+		return closeErrListener{x.l, x}
+	}
+	return x.l
+}
+
 var errInUse = errors.New("listen tcp 10.0.0.1:53: bind: address already in use")
 
 // the socket seam: what ListenAndServe's listen calls are answered with
@@ -435,7 +461,7 @@ func (x *run) listenTCP(network, addr string, reuseport, reuseaddr bool) (net.Li
 	if err != nil {
 		return nil, err
 	}
-	return x.l, nil
+	return x.listener(), nil
 }
 
 //go:norace
@@ -942,14 +968,14 @@ func runIn(sc *Scenario, res *core.Result, verbose bool) {
 		if x.viaListen {
 			srv.Net, srv.TLSConfig = "tcp-tls", scfg
 		} else {
-			srv.Listener = tls.NewListener(x.l, scfg)
+			srv.Listener = tls.NewListener(x.listener(), scfg)
 		}
 	} else if sc.Transport == "tcp" {
 		x.l = n.Listen()
 		if x.viaListen {
 			srv.Net = "tcp"
 		} else {
-			srv.Listener = x.l
+			srv.Listener = x.listener()
 		}
 	} else {
 		x.uc = n.ListenUDP()
@@ -1113,7 +1139,11 @@ func (x *run) judge(outcome string) {
 		}
 	}
 	ctxExpired := acc.ctx != nil && acc.err != ""
-	if acc.err != "" {
+	if sc.CloseErr && acc.err == errClose.Error() {
+		// Shutdown may pass on what closing the listener reported; everything else it promises still holds
+		res.Bump("probe.shutdown_returned_close_error")
+		ctxExpired = false
+	} else if acc.err != "" {
 		if acc.ctx == nil || acc.err != "context deadline exceeded" {
 			res.Fail("S1", "shutdown-error", "%s returned unexpected error %q", acc.name, acc.err)
 		} else if !acc.ctx.Expired() {
